@@ -436,6 +436,56 @@ def raw_json_variant(calls, root):
     return b''.join(out)
 
 
+def wrong_ancestor_variant(calls, root):
+    """The file for calls[:-1] followed by the LAST section (a preamble or
+    metadata without an encoding of its own) encoded with the encoding of a
+    FARTHER ancestor, where those bytes are not valid text in the nearest
+    one. A reader that uses the nearest ancestor must reject it; one that
+    falls back to outer ancestors accepts it. Returns (bytes, nearest,
+    outer) or None when the history offers no such pair."""
+    if not calls or calls[-1][0] not in ('preamble', 'meta') or \
+            calls[-1][2] is not None:
+        return None
+    scope, depth = [root, None, None], 0
+    for c in calls[:-1]:
+        if c[0] in ('change', 'file'):
+            lvl = spec.LEVEL_OF[c[0]]
+            for j in range(lvl, 3):
+                scope[j] = None
+            scope[lvl] = c[1]
+            depth = lvl
+    declared = [e for e in reversed(scope[:depth + 1]) if e]
+    if len(declared) < 2:
+        return None
+    nearest = declared[0]
+    head = spec.serialize(calls[:-1], root)[0]
+    text = 'caf\u00e9 \u20ac\n'
+    for outer in declared[1:]:
+        if outer == nearest:
+            continue
+        try:
+            body = spec.enc_nobom(text, outer) if calls[-1][0] == 'preamble' \
+                else spec.enc_nobom('{"k": "caf\u00e9"}\n', outer)
+        except Exception:
+            try:
+                body = spec.enc_nobom('caf\u00e9\n', outer) \
+                    if calls[-1][0] == 'preamble' else \
+                    spec.enc_nobom('{"k": "caf\u00e9"}\n', outer)
+            except Exception:
+                continue
+        try:
+            body.decode(nearest)
+            continue            # valid in the nearest too: not a test
+        except Exception:
+            pass
+        sid = '.' * (depth + 1) + calls[-1][0]
+        opts = {'length': len(body)}
+        if calls[-1][0] == 'meta':
+            opts['format'] = 'json'
+        return head + spec.header(sid, opts) + body, nearest, outer
+    return None
+
+
 def check_scope(ex, ref_bytes, ref_recs):
     """C04 oracles on one execution: writer alone (bytes vs declarative
     rule), reader alone (reference bytes), agreement (writer -> reader)."""
@@ -457,6 +507,22 @@ def check_scope(ex, ref_bytes, ref_recs):
     recs3, rerr3 = read_all_hostile(ref_bytes)
     v.extend(_cmp_recs('scope-reader-consumer-edits', last, recs3, rerr3,
                        ref_recs))
+    # reader alone: content that is only valid in a FARTHER ancestor's
+    # encoding is rejected
+    wa = wrong_ancestor_variant(ex.calls, ex.root)
+    if wa is not None:
+        data_w, nearest, outer = wa
+        recs4, rerr4, _, _ = read_all(data_w)
+        if rerr4 is None:
+            v.append(('scope-reader-used-farther-ancestor:%s' % last,
+                      'a %s without own encoding whose bytes are invalid in '
+                      'the nearest ancestor encoding %r but valid in the '
+                      'outer %r was accepted: %r'
+                      % (last, nearest, outer,
+                         _short(rec_content(recs4[-1])[1]))))
+        elif not isinstance(rerr4, DiffXParseError):
+            v.append(('scope-reader-raised:%s:%s'
+                      % (type(rerr4).__name__, site_of(rerr4)), repr(rerr4)))
     # reader alone, raw-JSON foreign variant
     if any(c[0] == 'meta' for c in ex.calls):
         rb = raw_json_variant(ex.calls, ex.root)
